@@ -53,7 +53,7 @@ def pipeline_pager(R, prog, c, pk, P, lim, filt_p, map_p):
     if not shape:
         R.info("C17.R1", "pagination helper %s is written as an iterator pipeline with steps %s that this rule does not model: loop-guard / count / filter obligations NOT decided" % (pk, methods))
         return
-    takes = [(i, a) for i, (m, a) in enumerate(steps) if m == "take"]
+    takes = [(i, tuple(shared._head_resolved(prog, x_) for x_ in a)) for i, (m, a) in enumerate(steps) if m == "take"]
     R.ob("C17.R1", "loop-guard", len(takes) == 1 and len(takes[0][1]) == 1 and lim(takes[0][1][0]), "pipeline takes %s; expected exactly one take(limit.unwrap_or(u32::MAX))" % [fmt(a[0])[:80] for _, a in takes], fn=pk)
     fl = P(filt_p[0])
     filters = [(i, a) for i, (m, a) in enumerate(steps) if m == "filter" and a and a[0][0] == "closure" and any(fl(v) or any(fl(s_) for s_ in subterms(v)) for _, n, v in a[0][2])]
@@ -143,10 +143,33 @@ def run(R, env):
             w = c.with_removed(rem).settle()
             R.worlds += 1
             rs = [o for o in storage_ops(w) if o["op"] == "range"]
+            if len(rs) == 1:
+                # the bounds are components of a helper's result that switches on the order (`Page::new(..).into_bounds(order)`):
+                # the helper is inlined in the world where the order parameter is this variant
+                asm_ = ((P(order_p[0]), ("variant", variant)),)
+                a_ = list(rs[0]["args"])
+                a_[2], a_[3] = shared._head_resolved(prog, a_[2], asm_), shared._head_resolved(prog, a_[3], asm_)
+                if a_[2] != rs[0]["args"][2] or a_[3] != rs[0]["args"][3]:
+                    rs = [dict(rs[0], args=a_)]
+                    n = max(n, 1)
             good = n >= 1 and len(rs) == 1 and P(map_p[0])(rs[0]["args"][0]) and want[0](rs[0]["args"][2]) and want[1](rs[0]["args"][3]) and P(order_p[0])(rs[0]["args"][4])
             R.ob("C17.R1", "bounds:" + variant, good, "%s scan uses range(min=%s, max=%s); expected the cursor as an EXCLUSIVE bound on the %s side and no other bound" % (variant, fmt(rs[0]["args"][2])[:80] if rs else None, fmt(rs[0]["args"][3])[:80] if rs else None, "lower" if variant == "Ascending" else "upper"), fn=pk)
         # loop guard
-        lim = lambda t: t[0] == "call" and t[1] == "std::option::Option::unwrap_or" and P(limit_p[0])(t[2][0]) and t[2][1][0] == "item" and t[2][1][1].endswith("u32>::MAX")
+        _lim0 = lambda t: t[0] == "call" and t[1] == "std::option::Option::unwrap_or" and P(limit_p[0])(t[2][0]) and t[2][1][0] == "item" and t[2][1][1].endswith("u32>::MAX")
+
+        def lim(t):
+            if _lim0(t):
+                return True
+            # limit.map_or(MAX, |l| l as usize): the same bound with the widening inside the closure
+            if t[0] == "call" and t[1] == "std::option::Option::map_or" and len(t[2]) == 3 and P(limit_p[0])(t[2][0]) and t[2][1][0] == "item" and t[2][1][1].endswith(("u32>::MAX", "usize>::MAX", "u64>::MAX")):
+                from engine.analysis import _map_or_alts
+                al_ = _map_or_alts(t)
+                if al_ is not None:
+                    r_ = al_[1]
+                    while r_[0] == "cast":
+                        r_ = r_[1]
+                    return r_ == ("payload", t[2][0], "Ok/Some")
+            return False
         guards = []
         for bi, atom in c.atoms():
             if atom[0] == "bool":
